@@ -43,6 +43,12 @@ RULE = ("random histories of 1-40 public calls on 2 Hypergraph slots (+1 scratch
         "g.get_weights())); after a rejected call the next 1-3 calls go through OTHER entry points on the members of the "
         "rejected call; every accepted batched call (60%) and constructor call is also compared with the same members one "
         "call each on a copy taken before (implementation against implementation); "
+        "a constructor call is ONE model call (`ctor` line = C01.construct, Spec.construct beside it); after every query round "
+        "expose_attributes_for_hashing(), get_mapping() (classes; transform of present nodes, of absent ones against numeric "
+        "class arrays; int < 2**53 / str universes), get_adj_dict() read through _reverse_edge_list and the round trip "
+        "populate_from_dict(expose_data_structures()) are compared with model and abstract hypergraph (`x` lines); "
+        "subhypergraph_largest_component() is sent to the model as a call (`lcc` line = C01.subLcc) when the largest component "
+        "of the abstract hypergraph is unique, its object compared through a query round, then adopted as before; "
         "every call is WRITTEN anew (presentation, derived from the case's `pres` seed and the call): each label is a freshly "
         "constructed equal object (int(str(x)), float / numpy.int64 / bool where exactly equal, re-joined strings, rebuilt "
         "tuples), hyperedges / node lists / hyperedge lists / weight lists / metadata lists come as tuple, list, set, frozenset, "
@@ -264,6 +270,29 @@ def r_incs(d):
 
 # ------------------------------------------------------------------------------------------------
 # the oracle: a plain set of nodes + a map from node sets to [weight, metadata]  (rank / token / quanta space)
+
+def r_smeta(m, empty="_"):
+    """metadata with its entries sorted (dict order is not part of the hashing view comparison)"""
+    return ",".join(sorted(f"{k}:{v}" for k, v in m.items())) if m else empty
+
+
+def norm_x(line, a):
+    """normal form of the model's answer to an `x` line: metadata entries sorted, every list ORDER kept"""
+    if not line.endswith(" hashing") or a == "rej" or a.startswith("SPECDIFF"):
+        return a
+    w, hm, es, ns = a.split("|")
+    sm = lambda m, empty: m if m in ("-", "_") else ",".join(sorted(m.split(",")))
+    es2 = es if es == "-" else ";".join("=".join(e.split("=")[:2] + [sm(e.split("=")[2], "_")]) for e in es.split(";"))
+    ns2 = ns if ns == "-" else ";".join(x.split("=")[0] + "=" + sm(x.split("=")[1], "_") for x in ns.split(";"))
+    return "|".join([w, sm(hm, "-"), es2, ns2])
+
+
+def spec_hashing(sp):
+    es = sorted((sorted(k), v[0], v[1]) for k, v in sp.edges.items())
+    return "|".join([r_bool(sp.w), r_smeta(sp.hm, "-"),
+                     ";".join(f"{r_edge(k)}={w}={r_smeta(m)}" for k, w, m in es) or "-",
+                     ";".join(f"{n}={r_smeta(m)}" for n, m in sorted(sp.nodes.items())) or "-"])
+
 
 class Rej(Exception):
     pass
@@ -1584,6 +1613,89 @@ class Real:
             return r_bool(h.is_isolated(n, *a, **kw))
         raise ValueError(name)
 
+    def xobs(self, i, sp, probe):
+        """second extension: (model line, implementation's answer, abstract hypergraph's answer | None) for the hashing view,
+        get_mapping (plain int / str universes: what numpy sorts like Python), the raw tables read id-free, the table route"""
+        h = self.slots[i]
+        out = []
+        try:
+            v = h.expose_attributes_for_hashing()
+            r = "|".join([r_bool(v["weighted"]) if v.get("type") == "Hypergraph" and isinstance(v["weighted"], bool) else "?",
+                          r_smeta(self.rmd(v["hypergraph_metadata"]), "-"),
+                          ";".join(f"{r_edge([self.rk(x) for x in e['nodes']])}={self.rw(e['weight'])}={r_smeta(self.rmd(e['metadata']))}"
+                                   for e in v["edges"]) or "-",
+                          ";".join(f"{self.rk(d['node'])}={r_smeta(self.rmd(d['metadata']))}" for d in v["nodes"]) or "-"])
+        except AlarmTimeout:
+            raise
+        except Exception as ex:
+            r = "rej"
+        out.append((f"x {i} hashing", r, spec_hashing(sp)))
+        plain = (all(type(x) is int and abs(x) < 2 ** 53 for x in self.labels) or all(type(x) is str for x in self.labels))
+        if plain:
+            try:
+                with warnings.catch_warnings():
+                    warnings.simplefilter("ignore")
+                    enc = h.get_mapping()
+                    r = r_list(self.rk(x.item() if hasattr(x, "item") else x) for x in enc.classes_)
+            except AlarmTimeout:
+                raise
+            except Exception as ex:
+                enc, r = None, f"exc {type(ex).__name__}"
+            nodes = sorted(sp.nodes)
+            out.append((f"x {i} mapping", r, r_list(nodes)))
+            # (sklearn casts the asked label to the dtype of the class array first: 'n10' -> 'n1' in a '<U2' array, 4 -> True in a
+            # bool array; an unseen label is therefore probed only against int / float class arrays)
+            if enc is not None:
+                numeric = getattr(getattr(enc, "classes_", None), "dtype", None) is not None and enc.classes_.dtype.kind in "if"
+                for n in probe:
+                    if n not in sp.nodes and not numeric:
+                        continue
+                    try:
+                        with warnings.catch_warnings():
+                            warnings.simplefilter("ignore")
+                            r = str(int(enc.transform([self.labels[n]])[0]))
+                    except AlarmTimeout:
+                        raise
+                    except Exception:
+                        r = "rej"
+                    out.append((f"x {i} indexof {n}", r, str(nodes.index(n)) if n in sp.nodes else "rej"))
+        try:
+            adj, rev = h.get_adj_dict(), h.expose_data_structures()["reverse_edge_list"]
+            ents, bad = [], None
+            for n, ids in adj.items():
+                ks = [tuple(self.rk(x) for x in rev[j]) if j in rev else "?" for j in ids]
+                want = sorted(tuple(sorted(k)) for k in sp.edges if self.rk(n) in k)
+                if sorted(map(str, ks)) != sorted(map(str, want)):
+                    bad = f"node {self.rk(n)!r}: adjacency ids {list(ids)!r} stand for {ks!r}, its hyperedges are {want!r}"
+                ents.append(f"{self.rk(n)}=" + ("/".join(r_edge(k) if k != "?" else "?" for k in ks) or "_"))
+            r = ";".join(sorted(ents)) or "-"
+            if bad:
+                r = "bad: " + bad
+        except AlarmTimeout:
+            raise
+        except Exception as ex:
+            r = f"exc {type(ex).__name__}"
+        out.append((f"x {i} adjkeys", r, None))
+        try:
+            with warnings.catch_warnings():
+                warnings.simplefilter("ignore")
+                g = self.H()
+                d = h.expose_data_structures()
+                g.populate_from_dict(d)
+                d2 = g.expose_data_structures()
+                ok = (d2 == d and g.get_edge_list() == h.get_edge_list() and g.get_adj_dict() == h.get_adj_dict()
+                      and g.get_edge_list() == d["_edge_list"] and g.get_adj_dict() == d["_adj"]
+                      and set(d) == {"type", "_weighted", "_adj", "_edge_list", "_weights", "hypergraph_metadata", "node_metadata",
+                                     "edge_metadata", "reverse_edge_list", "next_edge_id"}
+                      and all(j < d["next_edge_id"] for j in d["reverse_edge_list"]))
+            r = r_bool(ok)
+        except AlarmTimeout:
+            raise
+        except Exception as ex:
+            r = f"exc {type(ex).__name__}"
+        out.append((f"x {i} roundtrip", r, "1"))
+        return out
+
     def str_ok(self, i):
         """__str__ is derived from num_nodes / num_edges / distribution_sizes"""
         import ast
@@ -2299,15 +2411,30 @@ def fix_cmd(c):
 
 
 def ctor_lines(c):
-    """the constructor call as model commands on the scratch slot 2, then `copy 2 i`"""
+    """the constructor call as ONE model call (`C01.construct`, second extension)"""
     _, i, w, hm, nmeta, es, ws, mds = c
-    lines = [f"new 2 {1 if w else 0} {w_meta(hm)}"]
-    for n, m in (nmeta or {}).items():
-        lines.append(op_line(2, ("addnode", n, m)))
-    if es:
-        lines.append(op_line(2, ("addedges", es, ws, mds)))
-    lines.append(f"copy 2 {i}")
-    return lines
+    nm = ";".join(f"{n}={w_meta(m, '_')}" for n, m in (nmeta or {}).items()) or "-"
+    return [f"ctor {i} {1 if w else 0} {w_meta(hm)} {nm} {w_natss(es or [])} "
+            f"{w_opt(ws, lambda l: w_nats([wq(t) for t in l]))} "
+            + w_opt(mds, lambda l: ";".join(w_meta(m, "_") for m in l) if l else "-")]
+
+
+def spec_components(sp):
+    """the connected components (node sets) of the abstract hypergraph"""
+    comp = {x: {x} for x in sp.nodes}
+    for e in sp.edges:
+        es = [x for x in e if x in comp]
+        for x in es[1:]:
+            a, b = comp[es[0]], comp[x]
+            if a is not b:
+                a |= b
+                for y in b:
+                    comp[y] = a
+    out = []
+    for c in comp.values():
+        if not any(c is d for d in out):
+            out.append(c)
+    return out
 
 
 def ctor_spec(c):
@@ -2397,7 +2524,9 @@ def run_history(case, drv, rng, stats=None, full_every=False, small=False):
         for ln, a, (kind, want, qname) in zip(lines, ans, expect):
             if a.startswith("SPECDIFF"):
                 raise Problem("disagree", f"Lean concrete model and Lean spec differ on {ln!r}: {a}", step)
-            got = a if kind != "q" else norm(KIND[qname], a)
+            got = norm_x(ln, a) if kind == "x" else (a if kind != "q" else norm(KIND[qname], a))
+            if kind == "x" and ln.endswith(" adjkeys") and not a.startswith("SPECDIFF"):
+                got = ";".join(sorted(a.split(";")))
             if got != want:
                 raise Problem("disagree", f"model answers {a!r} to {ln!r}, implementation gives {want!r}", step)
         lines.clear(); expect.clear()
@@ -2418,6 +2547,14 @@ def run_history(case, drv, rng, stats=None, full_every=False, small=False):
                                                f"implementation answers {r!r}, the abstract hypergraph of the history gives {o!r}", step)
                 if rnd == 0:
                     lines.append(ql); expect.append(("q", r, q[0]))
+        # second extension: hashing view, label mapping, raw tables (id-free) and the table route, after every query round
+        for ql, r, o in real.xobs(i, specs[i], sorted({0, n - 1, step % max(n, 1)})):
+            if o is not None and r != o:
+                raise Problem("violation", f"after step {step} {ql!r}: implementation gives {r!r}, the abstract hypergraph of "
+                                           f"the history gives {o!r}", step)
+            if r.startswith(("bad", "exc")):
+                raise Problem("violation", f"after step {step} {ql!r}: {r}", step)
+            lines.append(ql); expect.append(("x", r, None))
         # filter laws on the implementation itself: size=k is order=k-1
         if not real.str_ok(i):
             raise Problem("violation", f"after step {step}: str() does not report num_nodes/num_edges/distribution_sizes", step)
@@ -2577,7 +2714,7 @@ def run_history(case, drv, rng, stats=None, full_every=False, small=False):
                 if drv is not None:
                     flush(step)
                     outs = []
-                    for ln in cl[:-1]:
+                    for ln in cl:
                         outs.append(drv.ask(ln))
                         if outs[-1] != "ok":
                             break
@@ -2619,9 +2756,39 @@ def run_history(case, drv, rng, stats=None, full_every=False, small=False):
                 queries(src, light_queries(rng, n, pool), step)
                 flush(step)
                 continue
+            lcc_set = None
+            if how == "sublcc":
+                # subhypergraph_largest_component is INSIDE the model (C01.subLcc).  The call is sent when the largest
+                # component is unique (with a tie Python's max() takes the first in node LISTING order, which the harness
+                # does not pin down for every object); the result is compared, then the slot is adopted as before.
+                sizes = sorted(len(x) for x in spec_components(specs[src]))
+                if sizes and (len(sizes) == 1 or sizes[-1] > sizes[-2]):
+                    lcc_set = max(spec_components(specs[src]), key=len)
             bad = real.derive(src, how, arg, P, i)
             if bad:
                 raise Problem("violation", f"step {step}: {how} {arg!r} on a hypergraph of the history {bad}", step)
+            if lcc_set is not None:
+                if stats is not None:
+                    stats["sublcc_in_model"] = stats.get("sublcc_in_model", 0) + 1
+                try:
+                    got_nodes = {real.rk(x) for x in real.slots[i].get_nodes()}
+                except AlarmTimeout:
+                    raise
+                except Exception as ex:
+                    got_nodes = f"exc {type(ex).__name__}"
+                if got_nodes != lcc_set:
+                    raise Problem("violation", f"step {step}: subhypergraph_largest_component has the nodes {got_nodes!r}, the "
+                                               f"(unique) largest component of the abstract hypergraph is {sorted(lcc_set)!r}", step)
+                lines.append(f"lcc {src} 2 ~ ~"); expect.append(("ctl", "ok", None))
+                saved, real.slots[2], specs2 = real.slots[2], real.slots[i], specs[2]
+                sp2 = PySpec(specs[src].w)
+                sp2.nodes = {x: dict(m) for x, m in specs[src].nodes.items() if x in lcc_set}
+                sp2.edges = {e: [v[0], dict(v[1]), v[2]] for e, v in specs[src].edges.items() if e <= lcc_set}
+                specs[2] = sp2
+                try:
+                    queries(2, light_queries(rng, n, pool), step)
+                finally:
+                    real.slots[2], specs[2] = saved, specs2
             try:
                 w, hm, nodes, edges = real.readout(i)
             except AlarmTimeout:
